@@ -173,6 +173,13 @@ def run(tier, seed, replay=None):
                         got = (e.event_type, e.src_path, getattr(e, "dest_path", None) or None)
                     if got != want:
                         bad.append(("move %s -> %s with %s window %s: delivered %s, expected %s" % (s_, d_, fl, (ws, we), got, want),))
+                    # the same rename of a DIRECTORY is never an event about a data file (a listing never lists a directory)
+                    h.got = []
+                    h.dispatch(DirMovedEvent(s_, d_))
+                    n += 1
+                    if h.got:
+                        e = h.got[0]
+                        bad.append(("move of directory %s -> %s with %s: delivered %s" % (s_, d_, fl, (e.event_type, e.src_path, getattr(e, "dest_path", None))),))
     ck.enumerations.append(("disp.grammar_agrees_with_listing", n, len(bad), bad[:3]))
     ck.struct("disp.grammar_agrees_with_listing", not bad, "first disagreements: %s" % [b[0] for b in bad[:3]], {"no_input": False})
     ck.struct("disp.rename_is_creation", not [b for b in bad if b[0].startswith("move")], "move conversion wrong: %s" % [b[0] for b in bad if b[0].startswith("move")][:2], {"no_input": False})
